@@ -17,6 +17,9 @@ from .radio import Radio, regname, bits8, term_eq, fmt_bits, regwrites
 from .c03 import Agg
 
 
+from ..interp_expr import deps_of
+
+
 def havoc_regs(radio, st):
     regs = Regs()
     for r in regmap.REGS:
@@ -35,7 +38,7 @@ def check_enter(radio, agg, cls, func_enter, self_ref, st, label, who):
     radio.ck.absorb(it)
     radio.ck.analysed(func_enter)
     good = [o for o in outs if o.kind == "return"]
-    agg.add("R09.1", who, "__enter__ has exactly one, non-raising path", len(good) == 1 and len(outs) == 1, "%s: %d paths, %d normal" % (label, len(outs), len(good)))
+    agg.add("R09.1", who, "__enter__ never raises and has a normal path", len(good) >= 1 and len(outs) == len(good), "%s: %d paths, %d normal" % (label, len(outs), len(good)))
     for out in good:
         written = set()
         for ev in out.trace:
@@ -47,8 +50,18 @@ def check_enter(radio, agg, cls, func_enter, self_ref, st, label, who):
                 else:
                     agg.add("R09.1", who, "register address constant in __enter__", False, "%s: %r" % (label, r), ev.node)
         for r in regmap.CONFIG_REGS:
-            agg.add("R09.1", who, "%s is restored on entry" % regname(r), r in written,
-                    "%s: __enter__ never writes %s, so another object's setting survives" % (label, regname(r)))
+            okr = r in written
+            if not okr:
+                # a path that skips the write is fine only if it has just read the register and found it equal to the shadow
+                for ev in out.trace:
+                    if ev.kind == "cond" and isinstance(ev.node, ast.Compare) and isinstance(ev.data[1], tuple) and len(ev.data[1]) == 2 and isinstance(ev.node.ops[0], (ast.Eq, ast.NotEq)):
+                        eq = ev.data[0] if isinstance(ev.node.ops[0], ast.Eq) else not ev.data[0]
+                        deps = [set(d for d in deps_of(norm(x))) for x in ev.data[1]]
+                        cur = [any(isinstance(d, tuple) and len(d) >= 2 and d[0] == "other" and d[1] == r for d in ds) for ds in deps]
+                        if eq and any(cur) and not all(cur):
+                            okr = True
+            agg.add("R09.1", who, "%s is restored on entry (on every path)" % regname(r), okr,
+                    "%s: a path through __enter__ does not write %s (and has not found the register equal to the shadow), so another object's setting survives" % (label, regname(r)))
         regs = out.state.extra["regs"]
         for r in regmap.CONFIG_REGS:
             if r not in written:
